@@ -114,50 +114,16 @@ example : Finite32 ⟨0⟩ ∧ Finite32 ⟨0x80000000⟩ ∧ Float32.eq ⟨0⟩ 
 
 /-! ## the derived order the key set relies on -/
 
-theorem ivCmp_lawful : LawfulCmp InitializationVector.cmp := by
-  have hn := cmpNat_lawful
-  refine ⟨?_, ?_, ?_⟩
-  · intro x y; cases x <;> cases y <;> simp [InitializationVector.cmp, hn.eq_iff]
-  · intro x y; cases x <;> cases y <;> simp [InitializationVector.cmp, Ordering.swap]
-    all_goals exact hn.swap _ _
-  · intro x y z; cases x <;> cases y <;> cases z <;> simp [InitializationVector.cmp]
-    all_goals exact hn.trans_lt _ _ _
-
-theorem keyFormatCmp_lawful : LawfulCmp KeyFormat.cmp := by
-  have hs := cmpStr_lawful
-  have hn := cmpNat_lawful
-  refine ⟨?_, ?_, ?_⟩
-  · intro x y
-    cases x <;> cases y <;> simp [KeyFormat.cmp, KeyFormat.rank, hs.eq_iff, cmpNat]
-  · intro x y
-    cases x <;> cases y <;> simp [KeyFormat.cmp, KeyFormat.rank, cmpNat, Ordering.swap]
-    exact hs.swap _ _
-  · intro x y z
-    cases x <;> cases y <;> cases z <;> simp [KeyFormat.cmp, KeyFormat.rank, cmpNat]
-    exact hs.trans_lt _ _ _
-
-theorem kfvCmp_lawful : LawfulCmp KeyFormatVersions.cmp := by
-  have hl := cmpList_lawful cmpNat_lawful
-  refine ⟨?_, ?_, ?_⟩
-  · intro x y; cases x; cases y; simp [KeyFormatVersions.cmp, hl.eq_iff]
-  · intro x y; exact hl.swap _ _
-  · intro x y z; exact hl.trans_lt _ _ _
-
 /-- `derive(Ord)` on `DecryptionKey` is `Equal` exactly on identical keys -/
-theorem decryptionKey_cmp_eq_iff (a b : DecryptionKey) : a.cmp b = .eq ↔ a = b := by
-  have h1 := cmpNat_lawful.eq_iff a.method.idx b.method.idx
-  have h2 := cmpStr_lawful.eq_iff a.uri b.uri
-  have h3 := ivCmp_lawful.eq_iff a.iv b.iv
-  have h4 := (cmpOpt_lawful keyFormatCmp_lawful).eq_iff a.format b.format
-  have h5 := (cmpOpt_lawful kfvCmp_lawful).eq_iff a.versions b.versions
-  have hm : a.method.idx = b.method.idx ↔ a.method = b.method := by
-    cases a.method <;> cases b.method <;> simp [EncryptionMethod.idx]
-  cases a; cases b
-  simp only [DecryptionKey.cmp, ordThen_eq_iff, DecryptionKey.mk.injEq] at *
-  rw [h1, h2, h3, h4, h5, hm]
+theorem decryptionKey_cmp_laws (a b c : DecryptionKey) :
+    (a.cmp b = .eq ↔ a = b) ∧ (a.cmp b).swap = b.cmp a ∧ (a.cmp b = .lt → b.cmp c = .lt → a.cmp c = .lt) :=
+  ⟨decryptionKeyCmp_lawful.eq_iff a b, decryptionKeyCmp_lawful.swap a b, decryptionKeyCmp_lawful.trans_lt a b c⟩
 
-/-- the order of `ExtXKey` (`Option<DecryptionKey>`): `Equal` exactly on identical values -/
-theorem extXKey_cmp_eq_iff (a b : ExtXKey) : ExtXKey.cmp a b = .eq ↔ a = b := by
-  cases a <;> cases b <;> simp [ExtXKey.cmp, cmpOpt, decryptionKey_cmp_eq_iff]
+/-- the order of `ExtXKey` (`Option<DecryptionKey>`, the element type of the set of keys in
+effect): `Equal` exactly on identical values, antisymmetric, transitive -/
+theorem extXKey_cmp_laws (a b c : ExtXKey) :
+    (ExtXKey.cmp a b = .eq ↔ a = b) ∧ (ExtXKey.cmp a b).swap = ExtXKey.cmp b a ∧
+    (ExtXKey.cmp a b = .lt → ExtXKey.cmp b c = .lt → ExtXKey.cmp a c = .lt) :=
+  ⟨extXKeyCmp_lawful.eq_iff a b, extXKeyCmp_lawful.swap a b, extXKeyCmp_lawful.trans_lt a b c⟩
 
 end Hls.C19
